@@ -325,6 +325,14 @@ m("m20c", ["C20"], U,
   "plane thickness above 1000 mm treated as metres")
 
 
+# mutants that turned out to change nothing observable (kept as controls)
+EQUIVALENT = {
+    "m06b": "the Source's off state is decided once at start-up (_get_state) and propagated; "
+            "the mutated branch is never reached with a live state",
+    "m16d": "the old group entry is deleted on the line before, so the fallback is always ''",
+}
+
+
 def run(cmd, env=None, timeout=3600):
     t0 = time.time()
     try:
@@ -340,6 +348,8 @@ def do_mutant(mu, tier="quick"):
     shutil.rmtree(d, ignore_errors=True)
     os.makedirs(d)
     res = {"id": mu["id"], "what": mu["what"], "checks": {}}
+    if mu["id"] in EQUIVALENT:
+        res["equivalent"] = EQUIVALENT[mu["id"]]
     try:
         shutil.copytree("/repo/src", d + "/src")
         shutil.copytree("/repo/tests", d + "/tests")
